@@ -780,7 +780,12 @@ def build_functions(sc: Scenario, broker: AsyncBroker) -> None:
             lines.append("        _seen = type(_e).__name__")
             lines.append(f"    _sc.trace.add('dep_close', _d, dep={name!r}, exc_seen=_seen)")
             if is_async and td_lat:
-                lines.append(f"    await _dep_lat({td_lat!r})")
+                if nd.get("td_err_only"):
+                    # (a rollback: the slow part of the teardown happens on the error path only)
+                    lines.append("    if _seen is not None:")
+                    lines.append(f"        await _dep_lat({td_lat!r})")
+                else:
+                    lines.append(f"    await _dep_lat({td_lat!r})")
                 lines.append(f"    _sc.trace.add('dep_closed', _d, dep={name!r})")
         exec("\n".join(lines), ns)  # noqa: S102
         done.add(name)
@@ -892,6 +897,9 @@ def _outcome(sc: Scenario, d: Any, tok: str, beh: Dict[str, Any], depvals: Any, 
         sc.trace.add("task_end", d, how="return")
         if beh.get("ret_handle"):
             return _Handle(val)  # the function's return value is an object that happens to be awaitable (a handle, a future)
+        if beh.get("ret_model"):
+            # the function returns an object of the application's own (a pydantic model / a dataclass instance)
+            return _ReqModel(name=tok) if beh["ret_model"] == "model" else _Unit(tok)
         if beh.get("ret_exc"):
             return ValueError("just a value", tok)  # an exception object as a *value* (collected, not raised)
         return val
